@@ -658,6 +658,9 @@ func (tb *Table) bin(op Op, x, y *T) *T {
 			if y.C == 1 {
 				return x
 			}
+			if y.C == mask(w) {
+				return tb.Neg(x)
+			}
 		}
 	case OBAnd:
 		if x.Op == OConst {
@@ -1115,6 +1118,15 @@ func (tb *Table) fbin(op Op, x, y *T) *T {
 			r = math.Max(a, b)
 		}
 		return tb.F64(r)
+	}
+	if op == OFMul {
+		// x * -1 is an exact sign flip in IEEE-754
+		if y.Op == OConst && y.Float() == -1 {
+			return tb.FNeg(x)
+		}
+		if x.Op == OConst && x.Float() == -1 {
+			return tb.FNeg(y)
+		}
 	}
 	return tb.mk(op, x.S, x, y, nil, 0, "")
 }
